@@ -34,6 +34,10 @@ SPECIAL_MC = {
     "C09": ("MCPower", {"quick": [dict(POWER_BASE), dict(POWER_BASE, WalN=1, MaxOps=2)],
                         "thorough": [dict(POWER_BASE, MaxOps=4, WalN=n, MaxCrashes=2) for n in (1, 2, 3)]},
             ["Inv_C09", "Inv_C03", "Inv_OpenOk"]),
+    # ExcuseF7 is TRUE only while finding F7 is listed as open in known_findings.json
+    "C10": ("MCDamage", {"quick": [dict(DAMAGE_BASE, ExcuseF7="@F7"), dict(DAMAGE_BASE, WalN=1, ExcuseF7="@F7")],
+                         "thorough": [dict(DAMAGE_BASE, MaxOps=4, WalN=n, MaxCrashes=2, ExcuseF7="@F7") for n in (1, 2, 3)]},
+            ["Inv_C10"]),
 }
 
 
@@ -45,10 +49,14 @@ def run_mc(tier, invariants, extra_consts=None, workers=8, prop=None):
         module, per_tier, invariants = SPECIAL_MC[prop]
         configs = per_tier[tier]
     tot["module"] = module
+    open_ids = {k["id"] for k in load_known() if k.get("status") == "open"}
     for c in configs:
         c = dict(c)
         if extra_consts:
             c.update(extra_consts)
+        for key, val in list(c.items()):
+            if isinstance(val, str) and val.startswith("@"):
+                c[key] = "TRUE" if val[1:] in open_ids else "FALSE"
         out = tlc(module, cfg_text(c, invariants=invariants), workers=workers, timeout=2400, heap="12g", name="mc")
         r = parse_mc(out)
         if r["error"] or not r["finished"]:
@@ -331,7 +339,11 @@ def run_seq_check(prop, tier, replay=None):
     for t in mc["violated"]:
         # a violated model invariant is reported only through its reproduction on the code (mode B / A above);
         # here it is recorded in the evidence
-        log(f"[{prop}] NOTE model-level invariant {t} violated in MCSteps")
+        log(f"[{prop}] NOTE model-level invariant {t} violated in {mc.get('module')}")
+    if mc["violated"] and not viol and not knowns:
+        # the design itself admits a bad state but no recorded execution showed it: the specification and the
+        # code have drifted apart (or the specification was edited) - that is a tool error, not a verdict
+        raise ToolError(f"model-level invariants {mc['violated']} violated but not reproduced on the code")
     nviol = 0
     for kid, (k, f, t) in knowns.items():
         print(f"KNOWN-FINDING: property={prop} {k['id']} {k['what']} (tag {t}, scenario {f['sid']})")
